@@ -219,9 +219,18 @@ GRAD_FIXED = [
 
 def enumerate_cases(tier):
     # gradient transforms cost 10-30 CPU-seconds each (jax differentiates through the ODE solver): the quick tier runs fixed representatives
+    # intermediate / complementary propagators of Hamiltonians that do not commute with themselves at different times (the order
+    # U(t0,tf) U(t0,ti)^dagger matters only there): fixed representatives, matrix and device routes
+    noncomm = [{"coef": {"f": "poly", "p": [0.4, -0.7, 0.5]}, "op": {"terms": [[1.0, "X", [0]]]}},
+               {"coef": {"f": "poly", "p": [-0.6, 0.9, 0.3]}, "op": {"terms": [[1.0, "ZY", [0, 1]]]}},
+               {"coef": {"f": "fixed", "c": 0.8}, "op": {"terms": [[1.0, "Z", [1]]]}}]
+    prep = [{"op": "RY", "p": [0.7], "w": [0]}, {"op": "CNOT", "p": [], "w": [0, 1]}, {"op": "RX", "p": [-0.4], "w": [1]}]
+    fixed = [{"kind": "prop", "wires": [0, 1], "terms": noncomm, "t": [0.0, 0.6, 1.3, 2.1], "ri": True, "comp": comp, "dense": dense, "build": "dot",
+              "order": order, "via": "both", "dev_wires": [1, 0], "prep": prep}
+             for comp, dense, order in ((True, None, [0, 1]), (True, True, [1, 0]), (False, None, [1, 0]))]
     if tier == "quick":
-        return GRAD_FIXED[:2]
-    return GRAD_FIXED
+        return fixed + GRAD_FIXED[:2]
+    return fixed + GRAD_FIXED
 
 
 # ----------------------------------------------------------------------------------------------------------------
